@@ -382,9 +382,17 @@ func main() {
 	r.Assume("GetFromComposite is exercised with parent and child under the same instance name (the only way callers build child digests)")
 	r.Assume("order in which `any` consults members is not part of the property (DESIGN section 5.5)")
 
+	if r.Shard != "" { // worker process of a conc/* exploration
+		concRun(r)
+		return
+	}
 	if r.Replay != "" {
 		rf := ev.LoadReplay(r.Replay)
-		replay(r, rf)
+		if strings.HasPrefix(rf.Sub, "conc/") {
+			concRun(r)
+		} else {
+			replay(r, rf)
+		}
 		r.Finish()
 	}
 
@@ -507,6 +515,7 @@ func main() {
 		sort.Strings(sl)
 		r.Note("any shapes: " + strings.Join(sl, " "))
 	}
+	concRun(r)
 	r.Finish()
 }
 
